@@ -30,7 +30,7 @@ RULE = ('(a) ~25 fixed grammars (meta expressions @int @uint @float @bool @name 
         'no hang (10 s alarm on <= 60-character inputs); for a FailedParse: 0 <= pos <= len(text), info.line/col/text agree with my splitter '
         'at min(pos, len-1), str(e) and e.render() return. plus coverage-guided campaigns (atheris/libFuzzer, in-process, oracle inside the target, seeded and empty corpora, fixed -runs and -seed): '
         'bytes -> (grammar, route, parseinfo, text) and bytes -> grammar text. non-trivial = the parse got past offset 0, or the mutated grammar is within 3 edits '
-        'of a valid one; distinct = distinct (grammar id, text) / distinct mutated grammar text')
+        'of a valid one; (c) generated regular expressions (well formed and not, often matching the empty string; inline flags, look-behinds, huge repeats, back-references) placed in @@whitespace (as /re/ and as string), @@comments, @@eol_comments, @@namechars and rule patterns, compiled and, when accepted, run on short texts through all three routes; distinct = distinct (grammar id, text) / distinct mutated grammar text')
 ASSUMPTIONS = [
     'exception classes defined in tatsu.exceptions (TatSuException subclasses) are "TatSu\'s own exception types"',
     'a hang is: no result within 10 s on an input of at most 60 characters, confirmed by the fresh-process replay',
@@ -303,6 +303,7 @@ def valid_grammars():
 def plan(tier):
     n = 1500 if tier == 'quick' else 20000
     shards = [dict(kind='texts', n=n) for _ in range(10)] + [dict(kind='grammars', n=max(40, n // 3)) for _ in range(6)]
+    shards += [dict(kind='regexes', n=max(60, n // 4)) for _ in range(4)]
     # coverage-guided campaigns (atheris/libFuzzer) with the same oracle inside the target
     runs = 4000 if tier == 'quick' else 400000
     shards += [dict(kind='atheris', n=runs, mode='texts', job=0)]
@@ -317,6 +318,8 @@ def run_shard(sh, kind, n, **kw):
         return run_texts(sh, n)
     if kind == 'atheris':
         return run_atheris(sh, n, **kw)
+    if kind == 'regexes':
+        return run_regexes(sh, n)
     return run_grammars(sh, n)
 
 
@@ -448,6 +451,79 @@ def run_grammars(sh, n):
         if d is not None:
             sh.fail(d['bucket'], dict(kind='grammar', text=text), d)
     hyp_run(sh, gen.rnds(), body, n, label='grammars')
+
+
+# ------------------------------------------------------------------ (c) regular expressions in directives and patterns
+RX_ATOMS = ['a', 'b', '1', ' ', '\\s', '\\d', '\\w', '.', '[ab]', '[^a]', '[ \\t]', '#', '\\n', '\\b', '^', '$', '\\\\', '\\/', '-', '[z-a]', '\\1', '\\N{foo}', '\\u12', '\\x4', '(?P=n)', '[', ']', '(', ')', '\\']
+RX_QUANT = ['*', '+', '?', '*?', '+?', '{2}', '{0,1}', '{1,}', '{,2}', '{99999999999}', '{2,1}', '**', '{']
+RX_FLAGS = ['(?i)', '(?m)', '(?s)', '(?x)', '(?a)', '(?u)', '(?L)', '(?a)(?u)', '(?ms)', '(?-i:a)', '(?z)']
+RX_GROUPS = ['(%s)', '(?:%s)', '(?P<n>%s)', '(?=%s)', '(?!%s)', '(?<=%s)', '(?<!%s)', '(?#%s)', '(%s', '%s)', '(?(1)%s|b)', '(?>%s)']
+
+
+def gen_regex(rnd, depth=0):
+    """regular-expression text: mostly well formed, sometimes not; often able to match the empty string"""
+    n = rnd.choice([1, 1, 2, 2, 3])
+    parts = []
+    for _ in range(n):
+        r = rnd.random()
+        if r < 0.5 or depth >= 2:
+            a = rnd.choice(RX_ATOMS[:16]) if rnd.random() < 0.8 else rnd.choice(RX_ATOMS)
+        elif r < 0.8:
+            a = rnd.choice(RX_GROUPS[:5] if rnd.random() < 0.8 else RX_GROUPS) % gen_regex(rnd, depth + 1)
+        else:
+            a = gen_regex(rnd, depth + 1) + '|' + gen_regex(rnd, depth + 1)
+            if rnd.random() < 0.7:
+                a = '(?:' + a + ')'
+        if rnd.random() < 0.45:
+            a += rnd.choice(RX_QUANT[:8]) if rnd.random() < 0.85 else rnd.choice(RX_QUANT)
+        parts.append(a)
+    out = ''.join(parts)
+    if depth == 0 and rnd.random() < 0.2:
+        out = rnd.choice(RX_FLAGS[:5] if rnd.random() < 0.7 else RX_FLAGS) + out
+    return out
+
+
+RX_SITES = [
+    ('ws-regex', "@@whitespace :: /%s/\n\nstart: {'a' | 'b' | @int}* $ ;"),
+    ('ws-string', "@@whitespace :: '%s'\n\nstart: {'a' | 'b' | @int}* $ ;"),
+    ('comments', "@@comments :: /%s/\n\nstart: {'a' | 'b' | @int}* $ ;"),
+    ('eol-comments', "@@eol_comments :: /%s/\n\nstart: {'a' $-> | 'b' | @int}* $ ;"),
+    ('both-comments', "@@comments :: /%s/\n@@eol_comments :: /#.*?$/\n\nstart: {'a' | 'b' | @name}* $ ;"),
+    ('pattern', "start: {/%s/ | 'b'}* $ ;"),
+    ('pattern-q', "start: {?\"%s\" 'a'}* $ ;"),
+    ('pattern-skipto', "start: ->/%s/ 'a' $ ;"),
+    ('pattern-join', "start: /%s/.{'a'} $ ;"),
+    ('namechars', "@@namechars :: '%s'\n\nstart: {'a' | 'ab' | @name}* $ ;"),
+]
+RX_TEXT = st.lists(st.sampled_from(list('aab1 #\n') + ['ab', ' a', '\t', '#x\n', 'a1', '\r\n']), max_size=7).map(''.join)
+
+
+def run_regexes(sh, n):
+    def body(v):
+        rnd, texts = v
+        reset_tatsu_state()
+        site, tmpl = rnd.choice(RX_SITES)
+        rx = gen_regex(rnd)
+        g = tmpl % rx
+        d, info = check_compile(g)
+        compiled = info.get('outcome') == 'ok'
+        sh.case(('rx', g), True, ['regex-site:' + site, f'regex-compile:{info.get("outcome")}'], sample=dict(grammar=g, outcome=info.get('outcome')))
+        if d is not None:
+            sh.fail('regex:' + d['bucket'], dict(kind='grammar', text=g), d)
+            return
+        if not compiled:
+            return
+        for text in texts:
+            route = rnd.choice(['model-str', 'model-buffer', 'generated'])
+            pi = rnd.random() < 0.3
+            d, info = check_text('rx:' + g, g, route, pi, text)
+            sh.case(('rx', g, text, route, pi), True, ['regex-site:' + site, f'regex-parse:{info.get("outcome")}', f'route:{route}'],
+                    sample=dict(grammar=g, text=text, route=route, outcome=info.get('outcome')))
+            if d is not None:
+                sh.fail('regex:' + d['bucket'], dict(kind='text', gid='rx', grammar=g, route=route, parseinfo=pi, text=text), d)
+        for k in [k for k in _pool if k.startswith('rx:')]:
+            del _pool[k]
+    hyp_run(sh, st.tuples(gen.rnds(), st.lists(RX_TEXT, min_size=2, max_size=4)), body, n, label='regexes')
 
 
 def replay(case):
